@@ -204,7 +204,7 @@ func (n *LNNode) AddNotifier(label string) {
 	cb := n.onPaid
 	n.w.mu.Unlock()
 	if fire && cb != nil {
-		go cb(label)
+		Spawn(func() { cb(label) })
 	}
 }
 
@@ -233,7 +233,7 @@ func (w *World) settleLocked(inv Invoice, payreq string) (string, func()) {
 	var after func()
 	if payee.notifiers[li.Label] && payee.onPaid != nil {
 		cb, label := payee.onPaid, li.Label
-		after = func() { go cb(label) }
+		after = func() { Spawn(func() { cb(label) }) }
 	}
 	w.recordLocked(Obs{Node: payee.ID, Kind: "ln.incoming", Hash: inv.Hash, Extra: li.Label})
 	return li.Preimage, after
